@@ -101,6 +101,12 @@ func splitSubPath(src string) (string, string) {
 	}
 
 	idx += offset
+	// In a longer run of slashes the last two are the separator: a package
+	// address whose own path ends in a slash ("https://example.com/dl/")
+	// prints with its sub-path as "https://example.com/dl///sub".
+	for idx+2 < stop && src[idx+2] == '/' {
+		idx++
+	}
 	subdir := src[idx+2:]
 	src = src[:idx]
 
